@@ -565,6 +565,11 @@ impl<T: ToModel> ToModel for serde_cs::vec::CS<T> {
         MVal::Seq(self.0.iter().map(|x| x.to_model()).collect())
     }
 }
+impl<T> ToModel for std::marker::PhantomData<T> {
+    fn to_model(&self) -> MVal {
+        MVal::Unit
+    }
+}
 impl ToModel for serde_json::Value {
     fn to_model(&self) -> MVal {
         MVal::Json(Doc::from_json(self).sorted().render())
